@@ -101,3 +101,19 @@ prop("C15",
      assumptions=["SPop is not generated (non-deterministic by specification)",
                   "known finding c15-merge-list-duplication: list calls are dropped from the histories (counted under excluded)"],
      technique="differential twin-database property testing (rapid)")
+
+prop("C11",
+     level="fault_enumeration", engine="E3",
+     tests=[dict(name="TestC11", quick=500, thorough=5000)],
+     rule="as C10 with SyncEnable=true, but every crash point is expanded into power-loss images: each file reverts to its content at its last sync event (absent if never synced) and the truncations, writes and removals since then are volatile - every subset of them is applied when there are <=3 (otherwise none/all/each single one kept or dropped/every prefix), each also with the last kept write torn in half; the image is opened and must show O_c or O_c+1. Non-trivial: workload with at least one position that has volatile operations and more than 3 distinct images.",
+     assumptions=CRASH_ASSUMPTIONS + ["power-loss model: a sync of a file makes its whole content, its length and its directory entry durable; directories are durable when created",
+                                      "unsynced removals are never considered durable"],
+     technique="record-and-replay power-loss image enumeration with a recorded-observation oracle")
+
+prop("C12",
+     level="fault_enumeration", engine="E1+E3",
+     tests=[dict(name="TestC12", quick=400, thorough=4000)],
+     rule="rapid-generated mixed histories (<=8 steps, KV in all index modes, structures in KeyVal mode) with one 'bad' transaction of 1-4 state-changing calls inserted at a drawn position, of a drawn kind: function returns an error after k calls (db.Update), explicit Rollback, an oversized entry at a drawn position, an injected write error at EVERY write event of its Commit in turn (each with 0, 7 and 43 bytes written before the error), an injected sync error at every sync event in turn, a read-only transaction calling every mutating API, or calls of every mutating API on the transaction after Commit/Rollback. The bad transaction runs on the main database only; a twin runs the history without it; per-call results and the full observation of main and twin must agree after every step, in the process and after reopen; mutating calls in read-only/finished transactions must return errors; after a sync error the state must equal the twin without the transaction or a second twin that committed it. Non-trivial: the bad transaction contains at least one call that would change the observation (and, for fault kinds, at least one fault plan fired).",
+     assumptions=["a failed write leaves the record physically incomplete (if the omitted suffix is all zero bytes the torn prefix is shortened, because the zero-filled segment would already hold the complete record)",
+                  "known finding sparse-index-files-not-crash-consistent: I/O-fault cases run in KeyOnly instead of sparse mode (counted under excluded)"],
+     technique="twin-database differential testing with exhaustive fault-point enumeration per generated commit")
